@@ -55,6 +55,13 @@ def BASES(tier):
     return b
 
 
+def _trap_pdu():
+    m = trap_bytes()
+    tag, c = vber.read_one(m)
+    items = vber.read_all(c)
+    return vber.tlv(items[2][0], items[2][1])
+
+
 def trap_bytes(big=False):
     vbs = [((1, 3, 6, 1, 2, 1, 1, 3, 0), vber.T_TICKS, b"\x01\x02"),
            ((1, 3, 6, 1, 6, 3, 1, 1, 4, 1, 0), vber.T_OID, vber.oid_content((1, 3, 6, 1, 6, 3, 1, 1, 5, 3))),
@@ -828,7 +835,140 @@ def history_unit(check, stats, *, label, known_ids=(), n=150, size=20000):
         stats.evaluations += n - 1
         if res.violation:
             stats.violations.append(dict(case=case, message=res.violation, unit=label))
-    stats.units.append(dict(unit=label, kind="history", datagrams=3 * n, wall_s=round(time.time() - t0, 2)))
+    # SNMPv3: responses that claim ever-changing authoritative engine ids / user names with a digest that cannot verify.
+    # Judged by GROWTH: what stays allocated after 3n datagrams against what stayed after n (a bounded cache is no leak).
+    for kind in ("v3_foreign_engines", "v3_foreign_engines_small", "v3_foreign_users"):
+        agent, client = vworld.make_world(PROTOS["v3a"], dict(DB), request_cap=None)
+        st8 = dict(n=0)
+
+        def mangle(a, req, resp, kind=kind, st8=st8):
+            if req.get("discovery"):
+                return resp
+            st8["n"] += 1
+            tagv = st8["n"].to_bytes(4, "big")
+            body = vber.enc_scoped_pdu(a.engine_id, b"", vber.enc_pdu(vber.PDU_RESPONSE, req["pdu"]["rid"], 0, 0, [(SC, vber.T_OCTETS, b"x")]))
+            if kind == "v3_foreign_engines":
+                return a.build_v3(req["msg_id"], 1, req["user"], body, digest=b"\x01" * 12,
+                                  engine_id=b"\x80\x00\x1f\x88\x04" + tagv + bytes([65 + st8["n"] % 26]) * size)
+            if kind == "v3_foreign_engines_small":
+                return a.build_v3(req["msg_id"], 1, req["user"], body, digest=b"\x01" * 12, engine_id=b"\x80\x00\x1f\x88\x04" + tagv)
+            return a.build_v3(req["msg_id"], 1, b"u" + tagv.hex().encode() + b"y" * size, body, digest=b"\x01" * 12)
+
+        agent.mangle = mangle
+
+        def one(client=client, agent=agent):
+            try:
+                vworld.run(client.get(vworld.OID(SC)))
+            except Exception:  # noqa
+                pass
+            del agent.log[:]
+
+        m1 = max(n, 300)         # more than any reasonable bounded cache holds, so that a bound shows as a plateau
+        with vclock.fixed(1_700_000_000):
+            for _ in range(10):
+                one()
+            gc.collect()
+            tracemalloc.start()
+            base = tracemalloc.get_traced_memory()[0]
+            for _ in range(m1):
+                one()
+            gc.collect()
+            first = tracemalloc.get_traced_memory()[0] - base
+            for _ in range(2 * m1):
+                one()
+            gc.collect()
+            second = tracemalloc.get_traced_memory()[0] - base
+            tracemalloc.stop()
+        case = dict(base=["history", "v3a", kind], mut=["history", n, size])
+        res_classes = ["path=history", "history=" + kind]
+        per = size if kind != "v3_foreign_engines_small" else 64
+        grow = second - first
+        # twice as many further datagrams: a leak grows by about 2 x m1 x (what one datagram leaves behind)
+        if grow > 0.5 * m1 * per and grow > 24 * 1024:
+            res = Result("history of refused %s responses (%d octets each) on one SNMPv3 client: %d KiB stay allocated after %d datagrams, "
+                         "%d KiB after %d -- memory grows with the number of datagrams received" % (
+                             kind, per, first // 1024, m1, second // 1024, 3 * m1), True, res_classes)
+        else:
+            res = Result(None, True, res_classes, observations={"max_retained_after_history_kb": second // 1024})
+        stats.record(case, res)
+        stats.evaluations += 3 * m1 - 1
+        if res.violation:
+            stats.violations.append(dict(case=case, message=res.violation, unit=label))
+    # the same for a trap listener: refused datagrams that differ from one another in the part a look-up could be keyed on
+    from puresnmp.api.raw import register_trap_callback
+
+    for kind in ("trap_unknown_version", "trap_foreign_community", "trap_garbage_pdu"):
+        got = []
+
+        async def cb(trap, got=got):
+            got.append(1)
+
+        loop = vloop.VLoop()
+        old = vworld._LOOP
+        try:
+            asyncio.set_event_loop(loop)
+            register_trap_callback(cb, listen_address="192.0.2.200", port=1162, credentials=vworld.V2C("public"), loop=loop)
+            proto = loop.transports[0].protocol
+            st8 = dict(n=0)
+            good = trap_bytes()
+
+            def one(proto=proto, st8=st8, kind=kind):
+                st8["n"] += 1
+                pad = st8["n"].to_bytes(4, "big") + bytes([65 + st8["n"] % 26]) * size
+                if kind == "trap_unknown_version":
+                    # the first element (msgVersion) is an over-long INTEGER that differs every time
+                    data = vber.tlv(vber.T_SEQ, vber.tlv(vber.T_INT, b"\x01" + pad) + vber.tlv(vber.T_OCTETS, b"public") + _trap_pdu())
+                elif kind == "trap_foreign_community":
+                    data = vber.tlv(vber.T_SEQ, vber.tlv(vber.T_INT, b"\x01") + vber.tlv(vber.T_OCTETS, pad) + _trap_pdu())
+                else:
+                    data = vber.tlv(vber.T_SEQ, vber.tlv(vber.T_INT, b"\x01") + vber.tlv(vber.T_OCTETS, b"public") + vber.tlv(0xA7, pad))
+                try:
+                    proto.datagram_received(data, ("192.0.2.9", 5000))
+                    loop.drain(2)
+                except Exception:  # noqa
+                    pass
+                del loop.callback_errors[:]
+
+            for _ in range(10):
+                one()
+            gc.collect()
+            tracemalloc.start()
+            base = tracemalloc.get_traced_memory()[0]
+            for _ in range(n):
+                one()
+            gc.collect()
+            retained = tracemalloc.get_traced_memory()[0] - base
+            tracemalloc.stop()
+            n0 = len(got)
+            try:
+                proto.datagram_received(good, ("192.0.2.9", 5000))
+                loop.drain(3)
+            except Exception:  # noqa
+                pass
+            delivered_after = len(got) == n0 + 1
+        finally:
+            try:
+                loop.close()
+            except Exception:  # noqa
+                pass
+            asyncio.set_event_loop(old if old is not None and not old.is_closed() else None)
+        case = dict(base=["history", "v2c", kind], mut=["history", n, size])
+        budget = 16 * size + 256 * 1024
+        res_classes = ["path=history", "history=" + kind]
+        if retained > budget:
+            res = Result("after a history of %d refused %s datagrams of %d octets at one trap listener %d KiB stay allocated (budget %d KiB "
+                         "= 16 x one datagram + 256 KiB): memory grows with the number of datagrams received" % (
+                             n, kind, size, retained // 1024, budget // 1024), True, res_classes)
+        elif not delivered_after:
+            res = Result("after a history of %d refused %s datagrams the listener no longer delivers a valid notification" % (n, kind),
+                         True, res_classes)
+        else:
+            res = Result(None, True, res_classes, observations={"max_retained_after_history_kb": retained // 1024})
+        stats.record(case, res)
+        stats.evaluations += n - 1
+        if res.violation:
+            stats.violations.append(dict(case=case, message=res.violation, unit=label))
+    stats.units.append(dict(unit=label, kind="history", datagrams=6 * n, wall_s=round(time.time() - t0, 2)))
 
 
 def units(tier, seed):
